@@ -118,7 +118,7 @@ QUERY_OPS = ["satisfiable", "eval", "eval", "batch_eval", "min", "max", "min", "
 
 
 def random_history(rng, A, cls, kw, length, multi=False, pick=False, unsat_core=False, foldable=False,
-                   branchy=False, truthy=False, annotvar=False):
+                   branchy=False, truthy=False, annotvar=False, saa=False):
     W = A["W"]
     m = (1 << W) - 1
     H = [["new", cls, kw]]
@@ -161,6 +161,11 @@ def random_history(rng, A, cls, kw, length, multi=False, pick=False, unsat_core=
                 batch = [c0, c0, rng.choice(eqs)] if rng.random() < 0.5 else [c0, rng.choice(eqs), c0]
             if unsat_core and rng.random() < 0.3:
                 H.append(["add", s, batch, "annot"])
+            elif saa and rng.random() < 0.5:
+                H.append(["add", s, batch, "saa"])
+                if rng.random() < 0.6:
+                    H.append(["add", s, [rng.choice(A["cons"]), rng.choice(A["cons"])]])
+                    H.append(["simplify", s])
             elif annotvar:
                 H.append(["add", s, batch, "annotvar"])
                 if rng.random() < 0.5:
@@ -476,6 +481,9 @@ def run_history(H, vars_, tid, cfg, step_hook=None):
                     # constraints carrying an annotation: the core must return THESE objects
                     built = [c.annotate(TagAnno(op_index * 10 + j)) for j, c in enumerate(built)]
                     e["cs"] = [TM.ser(c, ann=True) for c in built]
+                if len(op) > 3 and op[3] == "saa":
+                    # constraints the solver must never rewrite (and must keep) across simplify()
+                    built = [c.annotate(claripy.annotation.SimplificationAvoidanceAnnotation()) for c in built]
                 if len(op) > 3 and op[3] == "annotvar":
                     # the same constraints over ANNOTATED variables (same names): meaning unchanged; used to see whether
                     # annotations of one user's variables leak into another user's expressions (C20)
@@ -646,7 +654,7 @@ def main():
             H = random_history(rng, A, cls, kw, rng.randint(2, job["len"]), multi=job.get("multi", False),
                                pick=job.get("pickle", False), unsat_core=bool(kw.get("track")),
                                foldable=job.get("foldable", False), branchy=job.get("branchy", False),
-                               truthy=job.get("truthy", False))
+                               truthy=job.get("truthy", False), saa=job.get("saa", False))
             if job.get("faults") and len(H) > 2:
                 # arm one fault before a random query
                 pos = rng.randrange(1, len(H))
